@@ -136,6 +136,8 @@ func c15(c *Ctx) {
 	ruleNilMapField(c, "C15.P8", p.live())
 	ruleTypedNil(c, "C15.P9", p.live())
 	ruleNoDeleteFromTotalMap(c, "C15.P10")
+	ruleNilErrorMethod(c, "C15.P13", p.live(), "the whole module")
+	ruleIntDivGuard(c, "C15.P14", p.live(), "the whole module")
 	ruleRangeShrink(c, "C15.P12", "the whole module (stored records and configuration are filtered in place at start-up)")
 }
 
